@@ -41,7 +41,7 @@ type Case struct {
 	Holds    []sched.Hold `json:"holds,omitempty"`
 }
 
-const deadline = 5 * time.Second
+const deadline = 20 * time.Second
 
 type hangErr string
 
